@@ -302,6 +302,14 @@ impl Evaluator {
                 ciphertext1.polys_mut(ciphertext1_size, ciphertext2_size).copy_from_slice(
                     ciphertext2.polys(ciphertext1_size, ciphertext2_size)
                 );
+                if is_subtract {
+                    polymod::negate_inplace_ps(
+                        ciphertext1.polys_mut(ciphertext1_size, ciphertext2_size),
+                        ciphertext2_size - ciphertext1_size,
+                        coeff_count,
+                        coeff_modulus
+                    );
+                }
             }
         }
     }
